@@ -1204,10 +1204,51 @@ class ABCPropertyGraph(ABCPropertyGraphConstants):
         for deleted_id in interfaces_to_delete.union(links_to_delete):
             self.delete_node(node_id=deleted_id)
 
+    @staticmethod
+    def _sliver_tree_ids(sliver: BaseSliver) -> List[str]:
+        """
+        Node ids of a sliver and of everything nested in it (components, network services,
+        interfaces, sub-interfaces), in the order they would be added.
+        """
+        ids = [sliver.node_id]
+        for container, collection in (('attached_components_info', 'devices'),
+                                      ('network_service_info', 'network_services'),
+                                      ('interface_info', 'interfaces')):
+            info = getattr(sliver, container, None)
+            if info is not None:
+                for child in getattr(info, collection).values():
+                    ids.extend(ABCPropertyGraph._sliver_tree_ids(child))
+        return ids
+
+    def _check_can_add_sliver(self, *, parent_node_id: str or None, sliver: BaseSliver) -> None:
+        """
+        Refuse, before anything is added, a (deep) sliver whose insertion would fail half way and
+        leave part of it in the graph: its parent is missing, or one of the node ids it brings is
+        already in use.
+        """
+        if parent_node_id is not None:
+            # raises if the parent is not in the graph
+            self.get_node_properties(node_id=parent_node_id)
+        ids = self._sliver_tree_ids(sliver)
+        for node_id in ids:
+            if node_id is None:
+                # reported by the assertions of the individual writers
+                continue
+            if ids.count(node_id) > 1:
+                raise PropertyGraphQueryException(graph_id=self.graph_id, node_id=node_id,
+                                                  msg="Node id is used more than once in the sliver being added")
+            try:
+                self.get_node_properties(node_id=node_id)
+            except PropertyGraphQueryException:
+                continue
+            raise PropertyGraphQueryException(graph_id=self.graph_id, node_id=node_id,
+                                              msg="Node id is already in use, unable to add")
+
     def add_network_node_sliver(self, *, sliver: NodeSliver):
 
         assert sliver is not None
         assert sliver.node_id is not None
+        self._check_can_add_sliver(parent_node_id=None, sliver=sliver)
 
         if not self.check_node_unique(label=ABCPropertyGraph.CLASS_NetworkNode,
                                       name=sliver.resource_name):
@@ -1255,6 +1296,7 @@ class ABCPropertyGraph(ABCPropertyGraphConstants):
         """
         assert component.node_id is not None
         assert parent_node_id is not None
+        self._check_can_add_sliver(parent_node_id=parent_node_id, sliver=component)
 
         props = self.component_sliver_to_graph_properties_dict(component)
         self.add_node(node_id=component.node_id, label=ABCPropertyGraph.CLASS_Component, props=props)
@@ -1273,6 +1315,7 @@ class ABCPropertyGraph(ABCPropertyGraphConstants):
         :return:
         """
         assert network_service.node_id is not None
+        self._check_can_add_sliver(parent_node_id=parent_node_id, sliver=network_service)
         if parent_node_id is None and not self.check_node_unique(label=ABCPropertyGraph.CLASS_NetworkService,
                                                                  name=network_service.resource_name):
             # slice-wide network services must have unique names
@@ -1302,6 +1345,7 @@ class ABCPropertyGraph(ABCPropertyGraphConstants):
         :return:
         """
         assert interface.node_id is not None
+        self._check_can_add_sliver(parent_node_id=parent_node_id, sliver=interface)
 
         props = self.interface_sliver_to_graph_properties_dict(interface)
         self.add_node(node_id=interface.node_id, label=ABCPropertyGraph.CLASS_ConnectionPoint, props=props)
